@@ -54,4 +54,10 @@ META = {
   "note": "Observes goroutines through runtime.Stack filtered to imapserver frames and the server's end of the in-memory pipe; the 10 s liveness bound is ~10^5 times the normal latency.",
   "technique": "fault enumeration over disconnect offsets + property-based input generation/mutation (rapid) with clean-up invariants; child-process recursion probe",
  },
+ "C17": {
+  "text": "Generated plaintext injections around the STARTTLS boundary on both sides, with real crypto/tls handshakes over in-memory pipes, controlled write segmentation (exhaustive split points for short suffixes), a recording stub backend on the server side and a scripted peer on the client side. Sampling of suffixes/configurations; complete over split points of three suffixes.",
+  "design_ref": "DESIGN.md 3/C17",
+  "note": "Trusts crypto/tls, kit/pipe segmentation (the next segment is written only after the server consumed the previous one) and the stub session's call record.",
+  "technique": "property-based testing (rapid) + exhaustive split enumeration with recording stub / scripted peer and real TLS",
+ },
 }
